@@ -1341,6 +1341,7 @@ class Walker:
         if isinstance(op, (ast.Mult, ast.BitAnd, ast.BitOr, ast.BitXor)) and repr(kb) < repr(ka):
             ka, kb = kb, ka   # commutative: canonical operand order
         t = ("op", opn, ka, kb)
+        self.P.ops[t] = (a.lin, b.lin)      # operands, for dependency closures
         rng = (None, None)
         if not fl:
             if isinstance(op, ast.Mod):
